@@ -175,7 +175,7 @@ def run(chk: Check) -> None:
         chk.ob('FUT-run-once', run_f, bool(tests) and not any(branch_reaches_exit(cfg, t, 'true') for t in tests),
                'run() on a finished / cancelled action raises', kind='refuses-when-done')
         withs = [w for w in ast.walk(run_f.node) if isinstance(w, ast.With) and any(
-            isinstance(i.context_expr, ast.Call) and last_name(i.context_expr) == 'capture_exceptions' and [norm(a) for a in i.context_expr.args] == ['self']
+            isinstance(i.context_expr, ast.Call) and last_name(i.context_expr) == 'capture_exceptions' and [norm(a) for a in i.context_expr.args] == ['self'] and not i.context_expr.keywords
             for i in w.items)]
         inside = bool(withs) and any(acts[0] is x for w in withs for x in ast.walk(w))
         chk.ob('FUT-run-once', run_f, inside, 'the action runs inside capture_exceptions(self): its failure becomes the action\'s outcome',
